@@ -123,6 +123,7 @@ enum {
     V_TWIN_SETTER,          /* a rejected setter changed what the pipe does next */
     V_TWIN_GETTER,          /* a getter changed what the pipe does next */
     V_STALE_FLOW_DEF,       /* a buffer delivered under a flow definition that is no longer the pipe's current one */
+    V_PID_FILTER,           /* ts_pid_filter let a packet of a PID through that is not enabled */
 };
 
 static const char *class_name(int cls)
@@ -145,6 +146,7 @@ static const char *class_name(int cls)
     case V_TWIN_SETTER: return "rejected_setter_changed_behaviour";
     case V_TWIN_GETTER: return "getter_changed_behaviour";
     case V_STALE_FLOW_DEF: return "stale_flow_def";
+    case V_PID_FILTER: return "pid_filter";
     default: return NULL;
     }
 }
@@ -365,6 +367,7 @@ static void src_pump_cb(struct upump *upump) { (void)upump; }
 static bool complete_tainted;          /* something happened that legitimately drops or keeps buffers */
 static bool sink_blocked_ever;
 static uint64_t buffer_max_size, largest_input;
+static bool pid_enabled[4];            /* model of ts_pid_filter: PIDs 0x100..0x103 */
 
 static void sink_blocker_cb(struct upump_blocker *blocker)
 {
@@ -630,6 +633,7 @@ static void env_setup(void)
     }
     complete_tainted = sink_blocked_ever = false;
     largest_input = 0;
+    memset(pid_enabled, 0, sizeof(pid_enabled));
     buffer_max_size = 0;        /* (upipe_buffer's default: nothing fits until the application says how much) */
     ut = NULL;
     ut_ready = ut_dead = ut_events = ut_fatal = ut_error = 0;
@@ -991,6 +995,8 @@ static void do_op(const struct sim_op *op)
         unsigned burst = 1 + (unsigned)((uint64_t)op->a[3] % 4);
         for (unsigned k = 0; k < burst && ut != NULL; k++) {
             unsigned size = (unsigned)((uint64_t)(op->a[0] + k) % 200);
+            if (!strncmp(types[type].name, "ts_", 3) && ((uint64_t)op->a[0] & 3))
+                size = 188;
             /* (upipe_rtp_h264_input declares a variable-length array of the
              * buffer's size: an empty buffer is undefined behaviour there; no
              * property is about that, empty buffers are kept away from it) */
@@ -1020,6 +1026,14 @@ static void do_op(const struct sim_op *op)
                             w[i] &= 0x7f;
                     if (s > 8 && ((uint64_t)op->a[2] & 1)) { w[0] = 0x47; }
                     if (s > 8 && ((uint64_t)op->a[2] & 2)) memcpy(w, "#EXTM3U\n", 8);
+                    /* transport stream pipes: mostly whole packets of four PIDs */
+                    if (!strncmp(types[type].name, "ts_", 3) && s >= 4) {
+                        unsigned pid = 0x100 + (unsigned)(((uint64_t)op->a[2] + k) % 4);
+                        w[0] = 0x47;
+                        w[1] = (uint8_t)((pid >> 8) & 0x1f);
+                        w[2] = (uint8_t)pid;
+                        w[3] = (uint8_t)(0x10 | (seq & 0xf));
+                    }
                     uref_block_unmap(uref, 0);
                 }
             }
@@ -1048,6 +1062,21 @@ static void do_op(const struct sim_op *op)
             arm(op);
             upipe_input(ut, uref, ((uint64_t)op->a[2] & 4) && src_pump != NULL ? &src_pump : NULL);
             disarm(op);
+            /* ts_pid_filter against its model: a packet passes, at once, iff its
+             * PID is enabled */
+            if (!strcmp(types[type].name, "ts_pid_filter") && plan->cfg[CFG_PROP] == 5 && checking() && !fault_fired &&
+                !any_refusal && cur_out != NULL && ut != NULL && seq <= MAXSEQ && sent_rec[my].size >= 4 &&
+                cur_kind == K_BLOCK && !sink_blocked_ever) {
+                bool on = pid_enabled[((uint64_t)op->a[2] + k) % 4];
+                if (on && !sent_rec[my].arrived)
+                    sim_violation(V_LOST, "ts_pid_filter: packet %" PRIu64 " of the enabled PID 0x%x did not come out", my,
+                                  0x100 + (unsigned)(((uint64_t)op->a[2] + k) % 4));
+                else if (!on && sent_rec[my].arrived)
+                    sim_violation(V_PID_FILTER, "ts_pid_filter: packet %" PRIu64 " of PID 0x%x came out, that PID is not enabled", my,
+                                  0x100 + (unsigned)(((uint64_t)op->a[2] + k) % 4));
+                else
+                    SIM_PROBE(on ? "sweep_pid_filter_passed" : "sweep_pid_filter_dropped");
+            }
             /* an immediate pass-through pipe with a consenting output has
              * nothing to keep */
             if (plan->cfg[CFG_PROP] == 5 && (types[type].flags & F_IMMEDIATE) && checking() && !fault_fired &&
@@ -1110,6 +1139,15 @@ static void do_op(const struct sim_op *op)
         const char *name = types[type].name, *what = NULL;
         if (mode == MODE_TWIN && rejected[cur_op])
             break;
+        if (!strcmp(name, "ts_pid_filter")) {
+            unsigned k = (unsigned)((uint64_t)op->a[1] % 4);
+            int perr = w == 0 ? upipe_ts_pidf_del_pid(ut, (uint16_t)(0x100 + k)) : upipe_ts_pidf_add_pid(ut, (uint16_t)(0x100 + k));
+            if (ubase_check(perr))
+                pid_enabled[k] = w != 0;
+            if (mode == MODE_PRIMARY)
+                rejected[cur_op] = !ubase_check(perr);
+            break;
+        }
         unsigned n0 = ntrace[mode];
         int err = option_access(w, true, &v, &what);
         if (what == NULL)
